@@ -9,3 +9,11 @@ claim('C16', 'model_checking',
       'trusts TLC, the 5-line denote() from digit/group strings to Python ints, and the transcription of DWARF 7.4/7.6 in Bytes.tla; '
       'initial lengths 0xffffff00..0xffffffef are reserved in DWARF 2-4 and valid in DWARF 5, both answers accepted',
       'DESIGN.md 5/C16')
+claim('C17', 'other',
+      'vendored registry as TLA+ data (spec/RegistryData.tla from glibc elf.h + LLVM BinaryFormat); every exported (table, name, value) '
+      'pair of the tree is recorded as a trace and validated by TLC against Reg[name] (spec/trace/RegistryTrace.tla)',
+      'Exhaustive table conformance, not a state-space argument: all ~2900 exported name/value pairs are compared with an '
+      'independent registry; 2500 are asserted, the rest are names the registry does not define. The same registry feeds the other '
+      'modules, so a wrong code is also caught end to end by the property that decodes it.',
+      'trusts the glibc and LLVM 14 headers as registries and tools/mkregistry.py (C constant-expression evaluation); names on which '
+      'the two sources disagree (5) are excluded', 'DESIGN.md 5/C17')
